@@ -316,7 +316,9 @@ func (fx *FuncCtx) project(v Value, e PathElem) Value {
 			panic("field of array")
 		}
 		if x.Opaque {
-			return fx.Fresh(x.ElemT, "elem")
+			v := fx.Fresh(x.ElemT, "elem")
+			fx.assumeTypeInv(v, x.ElemT)
+			return v
 		}
 		r := Select(x.Arr, e.Idx)
 		if r.So.K == KArr {
@@ -403,4 +405,22 @@ func samePtr(a, b PtrVal) (same bool, known bool) {
 		}
 	}
 	return true, true
+}
+
+// assumeTypeInv: a value of a struct element type read out of an opaque array satisfies the declared type invariant
+// (an ASSUMPTION, reported with the trusted contracts).
+func (fx *FuncCtx) assumeTypeInv(v Value, t types.Type) {
+	n, ok := t.(*types.Named)
+	if !ok {
+		return
+	}
+	for _, ti := range fx.eng.typeInvs {
+		if ti.Global != n.Obj().Name() {
+			continue
+		}
+		st := &State{fx: fx, heap: map[*Object]Value{}, discover: &discoverCtx{}}
+		env := &SpecEnv{fx: fx, st: st, vars: map[string]Value{"v": v}, info: ti.Info}
+		fx.axiom(env.evalBool(ti.Cl.Expr))
+		fx.warn("assumed type invariant %s#%s for an element read from a slice of %s", ti.Global, ti.Cl.Name, ti.Global)
+	}
 }
